@@ -541,6 +541,7 @@ fn main() {
     let mut outw = io::BufWriter::new(stdout.lock());
     let dir = std::env::temp_dir().join(format!("h_server_{}", std::process::id()));
     std::fs::create_dir_all(&dir).unwrap();
+    let mut spins = 0;
     for (n, line) in stdin.lock().lines().enumerate() {
         let line = line.unwrap();
         match mode.as_str() {
@@ -555,10 +556,16 @@ fn main() {
                     let r = catch_unwind(AssertUnwindSafe(|| run_case(&line, &out2, &dir2, n)));
                     let _ = tx.send(r.is_ok());
                 });
-                match rx.recv_timeout(Duration::from_secs(20)) {
+                if spins >= 3 {
+                    // several accept loops of this process are already spinning: do not pile up more
+                    writeln!(outw, "SKIPPED").unwrap();
+                    continue;
+                }
+                match rx.recv_timeout(Duration::from_secs(4)) {
                     Ok(true) => writeln!(outw, "{}", out.lock().unwrap()).unwrap(),
                     Ok(false) => writeln!(outw, "{} ; HARNESS_PANIC", out.lock().unwrap()).unwrap(),
                     Err(_) => {
+                        spins += 1;
                         let o = out.lock().unwrap().clone();
                         if o.is_empty() {
                             writeln!(outw, "SPIN").unwrap()
